@@ -97,6 +97,8 @@ def replay(u, obs, prop, seed):
                   'the counterexample is a mid-loop / symbolic-callee state and no concrete input reproducing it natively was found.']
     # attach the verifier's own output for the failed obligations (trace excerpt), re-running with --trace
     try:
+        if u.get('timeout', 300) > 600:
+            raise RuntimeError('skipped for this slow unit (one run takes several minutes); the failed obligations above come from the deciding run')
         tr = vf.run_unit(u, keep=False, trace=True, timeout=u.get('timeout', 300))
         lines += ['', 'verifier output (re-run with --trace), failed obligations:']
         for o in tr['obligations']:
